@@ -129,7 +129,11 @@ func makeResourceSetting(cpu float64, memory int64, cpuMap map[string]int64, num
 			resource.CPUQuota = -1
 			// cpu share for fragile pieces
 			if _, divpart := math.Modf(cpu); divpart > 0 {
-				resource.CPUShares = int64(math.Round(float64(1024) * divpart))
+				// a cpu amount that is whole but for float noise (3.0000000000000004 after a few
+				// reallocs) must keep the default: 0 shares mean "leave as it is" to a docker update
+				if shares := int64(math.Round(float64(1024) * divpart)); shares > 0 {
+					resource.CPUShares = shares
+				}
 			}
 		}
 	}
